@@ -102,6 +102,7 @@ func checkMsg(c MsgCase, cv *cov) (v *evid.Violation) {
 		full := in
 		if expectOK {
 			full = append(append([]byte(nil), in...), trailer...)
+			full = append(full, bytes.Repeat([]byte{0x5A}, 24)...) // unread data behind the trailer: Release has to keep it
 		}
 		gn, gt, gs, l, err := x.ReadMessageBegin(full)
 		sr := faultio.NewScriptReader(full, c.Plan)
@@ -113,6 +114,15 @@ func checkMsg(c MsgCase, cv *cov) (v *evid.Violation) {
 			split = true
 		}
 		if expectOK {
+			// the returned name must be an independent value: read on, release the reader, then compare again
+			if tb, e := br.Next(len(trailer)); e != nil || !bytes.Equal(tb, trailer) {
+				v = evid.Failf("BufferReader.ReadMessageBegin: the bytes after the header are not the trailer (err=%v)", e)
+				return
+			}
+			br.Release(nil)
+			for i := range full {
+				full[i] = 0xEE
+			}
 			if err != nil || gn != name || gt != wantType || gs != c.Seq || l != len(want) {
 				v = evid.Failf("Binary.ReadMessageBegin: got (name %d bytes eq=%v, type %d, seq %d, len %d, err %v), want (type %d, seq %d, len %d)", len(gn), gn == name, gt, gs, l, err, wantType, c.Seq, len(want))
 				return
